@@ -1,7 +1,7 @@
 import Driver.Common
 import Logrange.Model.Where
 import Logrange.Model.FIter
-import Logrange.Model.PathSpec
+import Logrange.Model.PathMatchGreedy
 /-! Model driver for C05 (WHERE evaluation). Requests (byte strings hex, `-` = empty):
 
 * `case U|L <in> <out>`       — one entry of Go's strings.ToUpper / ToLower for a non-ASCII string → `ok`
@@ -15,7 +15,8 @@ import Logrange.Model.PathSpec
 * `specexpr <ast…>`           — set the expression the SPEC answers are computed from (default: the current one)
 * `ev <ts> <msg> <fields>`    — evaluate on one event: `model=<0|1|err> spec=<0|1|rej> fwf=<0|1>`
 * `match <pattern> <name>`    — path.Match model: `1|0|bad`
-* `specmatch <pattern> <name>` — SPEC of the pattern language (PathSpec.specMatch): `1|0|bad`
+* `specmatch <pattern> <name>` — SPEC of the pattern language (PathSpec.specMatch): `1|0|bad`, and for a well-formed pattern
+                                 ` g=<leftmost-commit reading 0|1> safe=<starSafe> safeA=<starSafeAscii> plain=<plainStars>`
 * `value <fields> <name>`     — Fields.Value model: `ok <hex>|panic` then ` spec=<hex|malformed>`
 * `fit.new <min> <max> <n> (<ts> <msg> <fields>)*n` — a fiterator over a list iterator, filter = current expression
   (`fit.newjump`: the list iterator moves one step on a direction switch)
@@ -134,7 +135,10 @@ def step (s : St) (toks : List String) : St × String :=
   | ["match", p, n] =>
     (s, match Logrange.PathMatch.pathMatch (unhex p) (unhex n) with | none => "bad" | some true => "1" | some false => "0")
   | ["specmatch", p, n] =>
-    (s, match Logrange.PathSpec.specMatch (unhex p) (unhex n) with | none => "bad" | some true => "1" | some false => "0")
+    (s, match Logrange.PathSpec.items? (unhex p) with
+        | none => "bad"
+        | some its =>
+          s!"{b01 (Logrange.PathSpec.matchItems its (unhex n))} g={b01 (Logrange.PathSpec.greedyMatch its (unhex n))} safe={b01 (Logrange.PathSpec.starSafe its)} safeA={b01 (Logrange.PathSpec.starSafeAscii its)} plain={b01 (Logrange.PathSpec.plainStars (unhex p) its)}")
   | ["value", f, n] =>
     let m := match Logrange.Fields.valueP (unhex f) (unhex n) with | some v => "ok " ++ hex v | none => "panic"
     let sp := match Logrange.Fields.pairs? (unhex f) with
